@@ -124,3 +124,15 @@ def c15_pure(ctx, dim, order):
     c0 = q.reference_cell_corners(dim)
     c1 = q.reference_cell_corners(dim)
     ctx.ensure("corner rule repeated returns the same rule", all(np.array_equal(u, v) for u, v in zip(c0, c1)))
+    # the tables handed out are the caller's own: mapping them to a physical cell IN PLACE (pts *= h; pts += x0) must not change what later callers get
+    for name, fn in (("gauss", lambda: q.gauss(dim, order)), ("gauss_reference_cell", lambda: q.gauss_reference_cell(dim, order)), ("reference_cell_corners", lambda: q.reference_cell_corners(dim))):
+        first = fn()
+        keep = [np.array(t, dtype=float).copy() for t in first]
+        for t in first:
+            if isinstance(t, np.ndarray) and t.flags.writeable:
+                t *= 3.0
+                t += 0.25
+        again = fn()
+        ctx.ensure(f"{name}: a later request is not affected by an in-place edit of an earlier result",
+                   len(again) == len(keep) and all(np.shape(u) == np.shape(v) and bool(np.array_equal(np.array(u, dtype=float), v)) for u, v in zip(again, keep)))
+        ctx.ensure(f"{name}: two results share no memory", not any(isinstance(u, np.ndarray) and isinstance(v, np.ndarray) and np.shares_memory(u, v) for u in first for v in again))
